@@ -47,6 +47,9 @@ fn dispatch(op: &str, a: &[&str]) -> String {
         "bitmap_tag" => place::bitmap_tag(a),
         "from_bits" => place::from_bits(a),
         "from_bits_flip" => place::from_bits_flip(a),
+        "path" | "path_raw" => place::path(a),
+        "pixels" => place::pixels(a),
+        "unicode" => place::unicode(a),
         _ => format!("unknown-op {}", op),
     }
 }
